@@ -503,6 +503,8 @@ def classify(case, qi, impl_v, git_v, git_detail, why, model_v):
             return cls
     if who == "go" and neg and why["anc"] and not impl_v and git_v:
         return "negated-ancestor"
+    if who == "go" and not neg and why["anc"] and impl_v and not git_v and body_of(raw).count(b"/") >= 1:
+        return "dir-pattern-below-reincluded-dir"
     return None
 
 
